@@ -10,6 +10,7 @@ import (
 	mrand "math/rand"
 	"os"
 	"path/filepath"
+	"runtime/debug"
 	"sync"
 	"time"
 
@@ -181,6 +182,39 @@ func (t *tlog) bytesRange(ser serialization.Serializer, from, to int) []byte {
 		b.Write(c)
 	}
 	return b.Bytes()
+}
+
+// chunk returns the encoding of entry i (encoding it now if it was replaced by a tampered entry).
+func (t *tlog) chunk(ser serialization.Serializer, i int) []byte {
+	if t.ch[i] == nil {
+		var eb bytes.Buffer
+		if err := ser.Encode(&eb, t.es[i]); err != nil {
+			fatalf("tampered entry %d cannot be encoded: %v", i, err)
+		}
+		t.ch[i] = eb.Bytes()
+	}
+	return t.ch[i]
+}
+
+// chunkReader streams entries [i, end) and encodes re-hashed entries only when the validator gets there.
+type chunkReader struct {
+	t      *tlog
+	ser    serialization.Serializer
+	i, end int
+	cur    []byte
+}
+
+func (r *chunkReader) Read(p []byte) (int, error) {
+	for len(r.cur) == 0 {
+		if r.i >= r.end {
+			return 0, io.EOF
+		}
+		r.cur = r.t.chunk(r.ser, r.i)
+		r.i++
+	}
+	n := copy(p, r.cur)
+	r.cur = r.cur[n:]
+	return n, nil
 }
 
 // rechain is what an attacker without keys can recompute from entry `from` on: prev links,
@@ -378,14 +412,14 @@ func snapshots(data []byte, ser serialization.Serializer, k *keys) []vsnap {
 //     as it was before.  nmid < 0 disables this (byte-level cases, where framing may be broken).
 // tool.Verify on the whole file is run for every accepted log (thorough; a sample in quick) and a
 // sample of the rejected ones, and must agree.
-func verifyStream(mid, tail []byte, nmid int, from, join vsnap, ser serialization.Serializer, k *keys) (v verdict) {
+func verifyStream(mid io.Reader, tail []byte, nmid int, from, join vsnap, ser serialization.Serializer, k *keys) (v verdict) {
 	idx := from.idx
 	defer func() {
 		if p := recover(); p != nil {
 			v = verdict{false, "panic", idx}
 		}
 	}()
-	dec := ser.NewDecoder(io.MultiReader(bytes.NewReader(mid), bytes.NewReader(tail)))
+	dec := ser.NewDecoder(io.MultiReader(mid, bytes.NewReader(tail)))
 	val := auditlog.NewValidator(k.edVerifier(), k.mlVerifier())
 	val.PrevHash, val.Index = from.prev, from.idx
 	val.HashBuffer = append(make([][]byte, 0, auditlog.GroundingBlockSize), from.buf...)
@@ -494,7 +528,9 @@ func (x *c27Ctx) tamper(c *c27Case, worker int, nth int) event {
 	ser := serializerOf(c.Ser)
 	if c.Ser == "bin" && (c.Kind == "bytes" || c.Kind == "trunc" || c.Field == "type") {
 		hugeAllocMu.Lock()
-		defer hugeAllocMu.Unlock()
+		// hand the (possibly multi-GiB) garbage back to the OS: the next huge allocation then gets
+		// fresh zero pages instead of clearing recycled ones
+		defer func() { debug.FreeOSMemory(); hugeAllocMu.Unlock() }()
 	}
 	t := newTlog(x.L, c.Ser)
 	p := x.idx(c.Pos)
@@ -503,7 +539,7 @@ func (x *c27Ctx) tamper(c *c27Case, worker int, nth int) event {
 	out := event{"kind": c.Kind, "pos": c.Pos, "field": c.Field, "field2": c.Field2, "mut": c.Mut, "mode": c.Mode,
 		"ser": c.Ser, "permille": c.Permille, "bit": c.Bit, "idx": p}
 	changed := []string{}
-	structure, decodeErr := false, false
+	structure, decodeErr, framingIntact := false, false, false
 
 	switch c.Kind {
 	case "field":
@@ -520,10 +556,7 @@ func (x *c27Ctx) tamper(c *c27Case, worker int, nth int) event {
 			t.set(p, e)
 		}
 		// what does the decoder see in the planted entry?
-		var eb bytes.Buffer
-		must(ser.Encode(&eb, t.es[p]))
-		t.ch[p] = eb.Bytes()
-		if de, err := decodeOne(eb.Bytes(), ser); err != nil {
+		if de, err := decodeOne(t.chunk(ser, p), ser); err != nil {
 			decodeErr = true
 		} else {
 			changed = diffFields(orig[p], de)
@@ -538,7 +571,34 @@ func (x *c27Ctx) tamper(c *c27Case, worker int, nth int) event {
 			t.ch[p] = chunk[:off]
 			t.es, t.ch = t.es[:p+1], t.ch[:p+1]
 		}
-		// decode from the tampered entry to the end and compare with the original entries
+		// Does the tampered chunk still decode as exactly one entry?  Then the framing of the stream
+		// is intact and only this entry can differ.  Otherwise decode from the tampered entry to the
+		// end and compare with the original entries.
+		if c.Kind == "bytes" {
+			func() {
+				defer func() { recover() }()
+				dec := ser.NewDecoder(bytes.NewReader(t.ch[p]))
+				e1, err := dec.Decode()
+				if err != nil {
+					return
+				}
+				if _, err2 := dec.Decode(); err2 != io.EOF {
+					return
+				}
+				if c.Ser == "bin" {
+					// the binary format has no delimiter: one entry decoded from exactly the chunk's bytes
+					var re bytes.Buffer
+					if ser.Encode(&re, e1) != nil || re.Len() != len(t.ch[p]) {
+						return
+					}
+				}
+				framingIntact = true
+				changed = diffFields(orig[p], e1)
+			}()
+			if framingIntact {
+				break
+			}
+		}
 		var rest bytes.Buffer
 		for _, ch := range t.ch[p:] {
 			rest.Write(ch)
@@ -625,18 +685,25 @@ func (x *c27Ctx) tamper(c *c27Case, worker int, nth int) event {
 	cs := t.commonSuffix(origCh, cp)
 	nmid := len(t.ch) - cp - cs
 	join := len(origCh) - cs
-	mid := t.bytesRange(ser, cp, len(t.ch)-cs)
 	tail := whole[offs[join]:]
-	applied := !(cp+cs == len(origCh) && nmid == 0) && !(join >= cp && bytes.Equal(mid, whole[offs[cp]:offs[join]]))
-	if c.Kind == "bytes" || c.Kind == "trunc" {
+	// did the tamper change the stored bytes at all?
+	applied := nmid != join-cp
+	for i := 0; !applied && i < nmid; i++ {
+		applied = !bytes.Equal(t.chunk(ser, cp+i), origCh[cp+i])
+	}
+	if (c.Kind == "bytes" && !framingIntact) || c.Kind == "trunc" {
 		nmid = -1
 	}
-	v := verifyStream(mid, tail, nmid, x.snap[c.Ser][cp], x.snap[c.Ser][join], ser, x.k)
+	v := verifyStream(&chunkReader{t: t, ser: ser, i: cp, end: len(t.ch) - cs}, tail, nmid, x.snap[c.Ser][cp], x.snap[c.Ser][join], ser, x.k)
 	// the in-memory loop must agree with the real tool.Verify on a file: checked for every accepted
-	// log and a sample of the rejected ones
-	if (v.ok && (x.thorough || nth%4 == 0)) || nth%40 == 0 {
+	// log (thorough; a sample in quick) and a sample of the rejected ones
+	every, everyRej := 8, 100
+	if x.thorough {
+		every, everyRej = 1, 20
+	}
+	if (v.ok && nth%every == 0) || nth%everyRej == 0 {
 		path := filepath.Join(x.workdir, fmt.Sprintf("tamper-%d.log", worker))
-		data := append(append(append([]byte(nil), whole[:offs[cp]]...), mid...), tail...)
+		data := append(append(append([]byte(nil), whole[:offs[cp]]...), t.bytesRange(ser, cp, len(t.ch)-cs)...), tail...)
 		if tv := toolVerify(path, data, c.Ser, x.k); tv != v.ok {
 			fatalf("tool.Verify (%v) and the in-memory validation loop (%v, %s) disagree on case %+v", tv, v.ok, v.reason, *c)
 		}
@@ -793,7 +860,7 @@ func runC27(in, outPath, workdir string, seed int64, thorough bool) {
 		for _, s := range []string{"bin", "json"} {
 			t := newTlog(vl, s)
 			data := t.bytes(serializerOf(s))
-			v := verifyStream(data, nil, -1, vsnap{}, vsnap{}, serializerOf(s), k)
+			v := verifyStream(bytes.NewReader(data), nil, -1, vsnap{}, vsnap{}, serializerOf(s), k)
 			baseline = append(baseline, event{"kind": "baseline", "ser": s, "log": []string{"L", "F"}[li], "ok": v.ok,
 				"reason": v.reason, "fail_idx": v.failIdx, "entries": len(vl.es)})
 			if !v.ok {
